@@ -211,7 +211,10 @@ def _pattern(M, pattern):
     'sparse'  - only individual i is measured at time i mod n_t ... plus a
                 fully measured last individual
     'uneven'  - the last time point is measured for the last individual
-                only"""
+                only
+    'obs_first' / 'obs_last' / 'obs_crossed' - missing values that differ
+                between the observables (first only / last only / both, plus
+                an individual measured in the first observable only)"""
     n_ids, n_obs, n_t = len(M), len(M[0]), len(M[0][0])
     out = [[[M[i][o][t] for t in range(n_t)] for o in range(n_obs)]
            for i in range(n_ids)]
@@ -227,6 +230,17 @@ def _pattern(M, pattern):
         for i in range(n_ids - 1):
             for o in range(n_obs):
                 out[i][o][n_t - 1] = NAN
+    if pattern == 'obs_first':
+        # the observables do not share their missing values: individual 0
+        # misses the last time point in the first observable only
+        out[0][0][n_t - 1] = NAN
+    if pattern == 'obs_last':
+        out[0][n_obs - 1][0] = NAN
+    if pattern == 'obs_crossed':
+        out[0][0][n_t - 1] = NAN
+        out[n_ids - 1][n_obs - 1][0] = NAN
+        out.append([[NAN] * n_t if o else [M[0][0][t] for t in range(n_t)]
+                    for o in range(n_obs)])
     if pattern == 'sparse':
         for i in range(n_ids - 1):
             for o in range(n_obs):
@@ -447,6 +461,10 @@ def jobs(tier):
         n_sim = 4 if kind == 'mixture' else 2
         pats = [('pad', 1, 1, 1), ('pad', 2, 1, 2), ('ragged', 2, 1, 2),
                 ('sparse', 3, 1, 2), ('uneven', 2, 1, 2)]
+        pats += [('obs_first', 2, 2, 2), ('obs_last', 2, 2, 1),
+                 ('obs_crossed', 2, 2, 2)]
+        if not q:
+            pats += [('obs_last', 2, 3, 2), ('obs_crossed', 3, 2, 2)]
         if not q:
             pats += [('ragged', 2, 2, 2), ('sparse', 3, 2, 2),
                      ('pad', 2, 2, 1), ('uneven', 3, 1, 3),
@@ -456,6 +474,9 @@ def jobs(tier):
                 continue
             if kind == 'mixture' and n_ids * n_t * n_obs > 6:
                 continue      # (> 6 cells x 4 simulated: over the budget)
+            if pat.startswith('obs_') and n_t > 1 and \
+                    kind not in ('gaussian', 'lognormal'):
+                continue      # (the KDE / mixture kinds at one time point)
             out.append(('missing', 'case_missing', dict(
                 kind=kind, pattern=pat, n_ids=n_ids, n_obs=n_obs,
                 n_times=n_t, n_sim=n_sim), {'max_paths': 128}))
